@@ -272,7 +272,22 @@ func runC17(c *core.Ctx) {
 			o, idx, _ := types.LookupFieldOrMethod(obj.Type(), false, mp.Types, "Combine")
 			st, _ := obj.Type().Underlying().(*types.Struct)
 			ok := o != nil && len(idx) == 2 && st != nil && st.Field(idx[0]).Embedded() && st.Field(idx[0]).Name() == sgF
-			c.Check(ok, "monoid-combine-promoted", "monoid.monoid.Combine", obj.Pos(), "promoted from embedded Semigroup", "Combine does not resolve through the embedded Semigroup field (index path %v)", idx)
+			how := "promoted from embedded Semigroup"
+			if !ok && o != nil && len(idx) == 1 && sgF != "" {
+				// a hand-written forwarder: Combine(a, b) = m.<semigroup field>.Combine(a, b), nothing else
+				if fn := methodsOf(c, monoidT)["Combine"]; fn != nil && len(fn.Params) == 3 {
+					an := c.Analyze(fn)
+					ps := an.AllPaths()
+					if len(an.Problems) == 0 && len(ps) == 1 && ps[0].Exit == ir.ExitReturn && len(ps[0].Results) == 1 && len(calls(ps[0])) == 1 && len(nonLocalStores(ps[0])) == 0 {
+						m, _, args, isC := callParts(ps[0].Results[0])
+						if isC && m == "Combine" && len(args) == 3 && args[0].Op == "field" && args[0].Aux == sgF && paramOf(args[0].Args[0], fn, 0) &&
+							paramOf(args[1], fn, 1) && paramOf(args[2], fn, 2) {
+							ok, how = true, "forwards to the stored Semigroup: m."+sgF+".Combine(a, b)"
+						}
+					}
+				}
+			}
+			c.Check(ok, "monoid-combine-promoted", "monoid.monoid.Combine", obj.Pos(), how, "Combine does not resolve through the embedded Semigroup field (index path %v) and is not a plain forwarder to it", idx)
 		}
 	}
 
